@@ -91,6 +91,7 @@ def case(prop, p):
   if verdict == 'sat':
     v0 = out['violations'][0]
     res['witness'] = v0.get('model', {})
+    res['weak_witness'] = True   # exact-arithmetic witness (may sit on a rounding tie): a non-reproducing one is inconclusive
     res['sig'] = dict(query='crystals', kind=v0['kind'])
     res['replay'] = dict(fn='crystals', params=p)
     res['note'] += '; first: %s' % (str(v0)[:200],)
